@@ -5,6 +5,24 @@ ROOT = os.path.dirname(os.path.dirname(os.path.abspath(__file__)))
 ALL = ["C%02d" % i for i in range(1, 18)]
 TIE = " Tied to /repo on every run by a differential correspondence (implementation built from the working tree vs the executable Lean model, generated inputs from VERIF_SEED, shrinking, property-oracle search on disagreement)."
 CLAIMS = {
+ "C01": ("Lean 4 theorems over the MemFS model for every call, path and state: a path that is not lexically clean behaves exactly as its Clean() form (walk, outcome and resulting state). The equality with Linux itself is decided by running MemFS and the kernel (OsFS in a chroot on tmpfs) on the same histories with full tree comparison after every call; each known divergence is a ledger class keyed by call, operand situation and the two outcomes.",
+         "MemFS = Posix as a theorem is NOT proved (no Lean reference semantics of Linux yet); OrefaFS is not modelled yet. The kernel comparison is an oracle run, sampled.",
+         "Lean 4 proof (unclean = clean) + differential correspondence impl≟model + impl≟kernel oracle with ledger", "§3 C01"),
+ "C04": ("Lean 4 theorems: the symlink walk terminates for every link graph and path within a computed fuel (potential-function proof), the budget is 40, no-follow calls get the directory entry itself, a reported ENOENT is sound. Resolution equality with the kernel is an oracle run (chains around the budget, relative/absolute/dangling/cyclic targets).",
+         "searchNode ≃ namei is not proved; equality with the kernel is sampled.",
+         "Lean 4 proof (termination by potential function, loop invariants) + impl≟kernel oracle", "§3 C04"),
+ "C05": ("Lean 4 theorems: the tree invariant WF (depth witness, unique parent, exact link counts, unique ids, no orphan subtree) is preserved by every creating, removing, attribute-changing call, every handle operation and Rename, for all operands and all states; a failed call leaves the state unchanged; the walk facts they rely on are proved from WF (including termination). The executable form wfCheck is evaluated on the implementation's own node graph after every call.",
+         "Rename under the hypothesis RenameSafe (not yet discharged); detached views excluded (kernel-checked witness); OrefaFS not modelled; concurrent executions are C06.",
+         "Lean 4 proof (invariant preservation by case analysis over the heap) + differential correspondence with graph dumps", "§3 C05"),
+ "C07": ("Part (a): Lean 4 theorems that no MemFS path-level call and no handle operation of the model returns the `panic` / `hang` outcome in any well-formed state for any argument; Match and SplitAbs never panic; generic ranked-acquisition ⇒ deadlock-free theorem. The model returns those outcomes exactly where the Go code would panic or self-deadlock, and the correspondence treats an implementation panic/hang as a violation.",
+         "Parts (b)(c) (self-deadlock obligations per function, deadlock under interleaving) need the lock-skeleton translator, not built yet; other file-system types are covered only by the correspondence watchdog.",
+         "Lean 4 proof (no-panic by case analysis under the walk invariant) + differential correspondence with recover/watchdog", "§3 C07"),
+ "C10": ("Lean 4 theorems: for EVERY byte string and every absolute virtual cwd, ToBasePath yields the base directory or a path lexically below it without '.'/'..' elements (confinement), FromBasePath∘ToBasePath is Clean∘Abs, Getwd is total; shape tables of every BasePathFS method regenerated on every run: each path parameter goes through ToBasePath, errors come back translated.",
+         "Chroot equivalence is carried by the lockstep run against a standalone file system with snapshots of everything outside the base directory; symlinks in the base pointing outside are assumed absent.",
+         "Lean 4 proof (over the component semantics of Clean) + regenerated tables + lockstep differential", "§3 C10"),
+ "C11": ("Lean 4 theorems over views of the MemFS model: a call through one view never changes user, umask, root or cwd of another view; handle operations only touch the view they were opened through; view setters leave the shared tree untouched; the tree is shared.",
+         "sub_sim (prefix simulation) not proved: carried by the correspondence with interleaved parent/view histories.",
+         "Lean 4 proof (case analysis over step) + differential correspondence with views", "§3 C11"),
  "C02": ("Lean 4 theorems over the handle model (fileStep): EOF beyond the end, zero-filled gaps, O_APPEND at the current end, access-mode enforcement, closed handles have no effect, a handle survives removal of its name, handles share the inode, directory batches deliver each entry once then EOF — for all contents, offsets and sizes.",
          "Per-operation theorems, not yet a refinement of whole histories; the os.File side is an oracle run (tmpfs) with recorded divergence classes (known_findings.jsonl).",
          "Lean 4 proof (case analysis / induction on batches) + differential correspondence with impl and os.File", "§3 C02"),
